@@ -102,14 +102,14 @@ Definition rd_stream (sid : Z) : M (bool * list Z) :=
   z <- rd_zblock ;;
   let '(sid', fresh, ok, data) := z in
   s <- get_st ;;
-  if negb (sid' =? sid) then (fun _ _ => Desync) else
-  if Bool.eqb fresh (zact_get s sid) then (fun _ _ => Desync) else
+  if negb (sid' =? sid) then desyncM 4 else
+  if Bool.eqb fresh (zact_get s sid) then desyncM 4 else
   upd_st (fun s => zact_set s sid true) ;;;
   ret (ok, data).
 
 (* Zlib and ZRLE.  A server keeps one deflate stream per encoding (streams 0 and 5 of the alphabet; [c_zlibz] / [c_zrlez]
    remember that the server has started them: a block that claims to continue a stream that was never started is a script
-   inconsistency, Desync).  With fix 11 (notes/fix_C07_3.diff) the client has an inflate stream per encoding as well.
+   inconsistency, Desync).  With fix 11 (9fe693e) the client has an inflate stream per encoding as well.
    Without it BOTH encodings go through the one decompStream ([zact 0]): a block that starts its server stream while the
    client's stream is in use carries a zlib header in mid-stream - inflate reports a data error, the connection is lost
    (finding C07-F4); a block that continues its server stream while the client's stream has meanwhile been fed from the
@@ -118,13 +118,13 @@ Definition rd_shared (own other : cst -> bool) (mark : cst -> cst) (sid : Z) : M
   z <- rd_zblock ;;
   let '(sid', fresh, ok, data) := z in
   s <- get_st ;;
-  if negb (sid' =? sid) then (fun _ _ => Desync) else
-  if negb fresh && negb (own s) then (fun _ _ => Desync) else
+  if negb (sid' =? sid) then desyncM 4 else
+  if negb fresh && negb (own s) then desyncM 4 else
   if fresh then
     (if zact_get s 0 then failM else upd_st (fun s => zact_set (mark s) 0 true) ;;; ret (ok, data))
   else
     (if zact_get s 0 && negb (other s) then upd_st (fun s => zact_set (mark s) 0 true) ;;; ret (ok, data)
-     else (fun _ _ => Desync)).
+     else desyncM 4).
 
 Definition rd_zlib_stream : M (bool * list Z) :=
   s0 <- get_st ;;
@@ -137,8 +137,8 @@ Definition rd_zrle_stream : M (bool * list Z) :=
     (z <- rd_zblock ;;
      let '(sid', fresh, ok, data) := z in
      s <- get_st ;;
-     if negb (sid' =? 5) then (fun _ _ => Desync) else
-     if Bool.eqb fresh (c_zrlez s) then (fun _ _ => Desync) else upd_st (fun s => set_zrlez s true) ;;; ret (ok, data))
+     if negb (sid' =? 5) then desyncM 4 else
+     if Bool.eqb fresh (c_zrlez s) then desyncM 4 else upd_st (fun s => set_zrlez s true) ;;; ret (ok, data))
   else rd_shared c_zrlez c_zlibz (fun s => set_zrlez s true) 5.
 
 Definition dec_zlib (x y w h : Z) : M unit :=
@@ -381,7 +381,7 @@ Fixpoint trle_runlen_ts (ts : list tok) (cap cur off pos acc : Z) (s : cst) : re
     match ts with
     | [] => More
     | TB b :: r => trle_runlen_ts r cap (b mod 256) (off + 1) (pos + 1) (acc + 255) s
-    | _ :: _ => Desync
+    | _ :: _ => Desync 1 ts
     end
   else Ok (acc + cur, off + 1) s ts.
 Definition trle_runlen (cap cur off pos acc : Z) : M (Z * Z) := fun s ts => trle_runlen_ts ts cap cur off pos acc s.
@@ -623,7 +623,7 @@ Definition tight_rows (code : Z) (f : pixfmt) (flt : tfilter) (cut : bool) (bypp
 (* FilterGradient24 / FilterGradientBPP store the first pixel of every row unconditionally ("dst[y*client->width] = ...")
    even when the rectangle is 0 pixels wide: pixel index (ry + j) * width + rx for j < rh, computed from whatever the row
    buffers hold.  For rx = width that is column 0 of the NEXT row, and one pixel past the framebuffer for the last row
-   (finding C08-F31; fix 10 = notes/fix_C08_11.diff returns early) *)
+   (finding C08-F31; fix 10 = a24a50e returns early) *)
 Definition write_lin (code x y : Z) : M unit :=
   s <- get_st ;;
   if c_w s <=? 0 then oobM code else
@@ -644,7 +644,7 @@ Definition dec_tight (rx ry rw rh : Z) : M unit :=
   if cc =? cTightFill then
     (if is888 f then b <- rd 3 ;; fill_rect rx ry rw rh (rgb24_px32 f (nthz b 0) (nthz b 1) (nthz b 2))
      else p <- rd_px bypp ;; fill_rect rx ry rw rh p)
-  else if cc =? cTightJpeg then (if bypp =? 1 then failM else fun _ _ => Desync)
+  else if cc =? cTightJpeg then (if bypp =? 1 then failM else desyncM 5)
   else if cTightMaxSubencoding <? cc then failM
   else
     fl <- (if flag cc cTightExplicitFilter then
